@@ -2,6 +2,7 @@
 from __future__ import annotations
 
 import ast
+import functools
 import itertools
 import re
 import types
@@ -23,6 +24,8 @@ def call(I, fn, args, kwargs):
         return call_special(I, fn, args, kwargs)
     if I.is_repo_fn(fn):
         return I.call_function(fn, list(args), kwargs)
+    if isinstance(fn, functools._lru_cache_wrapper) and I.is_repo_fn(getattr(fn, "__wrapped__", None)):
+        return lru_call(I, fn, list(args), kwargs)
     try:
         model = BUILTIN_MODELS.get(fn)
     except TypeError:
@@ -49,6 +52,57 @@ def call(I, fn, args, kwargs):
     if isinstance(r, (list, dict, set)):
         I.alloc(r)
     return r
+
+
+def lru_call(I, fn, args, kwargs):
+    """assumed contract of functools.lru_cache: the call returns f(x) freshly computed, or the value cached by an
+    EARLIER call f(x') with x' == x (equal and equally hashed - for schwifty's str subclasses: equal text).  The
+    earlier argument is an arbitrary object equal to x: same class and text, every other field havocked.  If the
+    function's result depends on such a field the cache makes results history dependent (C15)."""
+    wrapped = fn.__wrapped__
+    clones = [_havoc_clone(I, a) for a in args]
+    kclones = {k: _havoc_clone(I, v) for k, v in kwargs.items()}
+    changed = any(c is not a for c, a in zip(clones, args)) or any(kclones[k] is not kwargs[k] for k in kwargs)
+    if changed and I.branch(SBool(I.fresh("lru_cache_hit", "bool"))):
+        I.path_history.append((fn, clones, kclones))
+        # the earlier call completed normally (an exception is not cached) and therefore also met the
+        # preconditions of everything it called: they are path facts here, not obligations
+        I.assume_requires += 1
+        try:
+            return I.call_function(wrapped, clones, kclones)
+        except Raised:
+            raise Infeasible()
+        finally:
+            I.assume_requires -= 1
+    return I.call_function(wrapped, args, kwargs)
+
+
+def _havoc_clone(I, a):
+    if not isinstance(a, SObj) or a.payload is None:
+        return a
+    c = SObj(a.cls, a.payload)
+    I.keep.append(c)
+    touched = False
+    for (oid, name), val in list(I.heap.items()):
+        if oid != id(a):
+            continue
+        v = payload(val) if not isinstance(val, SObj) else val
+        if isinstance(v, (str, SStr)):
+            n = len(v)
+            cs = [I.fresh(f"earlier_{name}") for _ in range(n)]
+            for x in cs:
+                # fields of earlier objects hold cleaned text too (every constructor funnels through Base.__new__,
+                # and the classes' own code copies fields from payload slices): printable ASCII suffices to
+                # exhibit a dependence and keeps the search small; this only narrows the histories considered
+                I.assumptions.append(z3.And(x >= 33, x <= 96))
+            I.heap[(id(c), name)] = SStr(cs) if n else ""
+            touched = True
+        elif isinstance(v, (int, SInt)) and not isinstance(v, bool):
+            I.heap[(id(c), name)] = SInt(I.fresh(f"earlier_{name}"))
+            touched = True
+        else:
+            I.heap[(id(c), name)] = val
+    return c if touched else a
 
 
 def container_method(I, fn, args, kwargs):
@@ -365,7 +419,7 @@ def strmethod(I, s, name, args, kwargs):
 
 
 def zfill(I, s, n):
-    """assumed contract of str.zfill restricted to strings without a leading sign: left-pad with '0' to n"""
+    """model of str.zfill(n): left-pad with '0' to width n; a leading '+' or '-' stays in front of the padding"""
     if isinstance(s, SDecStr):
         s = I.materialize(s)
     if isinstance(s, SFn):
@@ -373,19 +427,33 @@ def zfill(I, s, n):
         if k is not None:
             s = I.vector_of(s, k)
         else:
-            first = s.at(z3.IntVal(0))
-            I.oblige("zfill.requires(no leading sign)", z3.Or(s.len == 0, z3.And(first != 43, first != 45)))
-            if I.branch(SBool(s.len < n)):
-                # enumerate the lengths below n (finitely many) -> fixed vectors
-                for k in range(n):
-                    if I.branch(SBool(s.len == k)):
-                        return SStr([z3.IntVal(48)] * (n - k) + I.vector_of(s, k).chars)
-                raise Infeasible()
-            return s
+            if not I.branch(SBool(s.len <= n)):
+                return s
+            if n == 0:
+                return ""
+            pad = n - s.len
+            s0 = s.at(z3.IntVal(0))
+            sign = z3.And(s.len >= 1, z3.Or(s0 == 43, s0 == 45))
+            out = []
+            for i in range(n):
+                plain = z3.If(i < pad, 48, s.at(i - pad))
+                signed = s0 if i == 0 else z3.If(i <= pad, 48, s.at(i - pad))
+                out.append(I.name_term(z3.If(sign, signed, plain), "zf"))
+            return SStr(out)
     s = lift_str(s)
-    if s.chars:
-        I.oblige("zfill.requires(no leading sign)", z3.And(s.chars[0] != 43, s.chars[0] != 45))
-    return concretize(SStr([z3.IntVal(48)] * max(0, n - len(s)) + s.chars))
+    k = len(s)
+    if k >= n:
+        return concretize(s)
+    if k == 0:
+        return "0" * n
+    pad = n - k
+    s0 = s.chars[0]
+    sign = z3.Or(s0 == 43, s0 == 45)
+    plain = [z3.IntVal(48)] * pad + s.chars
+    signed = [s0] + [z3.IntVal(48)] * pad + s.chars[1:]
+    if z3.is_int_value(s0):
+        return concretize(SStr(signed if s0.as_long() in (43, 45) else plain))
+    return concretize(SStr([z3.If(sign, a, b) for a, b in zip(signed, plain)]))
 
 
 def table_index(I, table: str, c):
